@@ -130,3 +130,62 @@ Example C03_hypotheses_inhabited :
   small (hex "31177f1f0c310a0201050201ff0202012c81020080c2020490"%string).
 Proof. split; [vm_compute; reflexivity|]. split; [vm_compute; reflexivity|]. unfold small. vm_compute. reflexivity. Qed.
 Print Assumptions C03_hypotheses_inhabited.
+
+(** ------------------------------------------------------------------
+    SET OF order, X.690 11.6 read literally (Ber/X690SetOf.v): the order the
+    specification produces is ascending when the shorter encoding is padded with
+    0-octets at its trailing end, and for prefix-free element encodings it is
+    the ONLY ascending arrangement - sort keys such as "length first", "contents
+    only" or "tag number" are separated from it by the examples of that file. *)
+From Asn1V Require Ber.X690SetOf.
+
+Theorem C03_setof_sort_ascending : ltac:(let T := type of Asn1V.Ber.X690SetOf.sort_ascending in exact T).
+Proof. exact Asn1V.Ber.X690SetOf.sort_ascending. Qed.
+Print Assumptions C03_setof_sort_ascending.
+
+Theorem C03_setof_ascending_unique : ltac:(let T := type of Asn1V.Ber.X690SetOf.setof_ascending_unique in exact T).
+Proof. exact Asn1V.Ber.X690SetOf.setof_ascending_unique. Qed.
+Print Assumptions C03_setof_ascending_unique.
+
+(** ------------------------------------------------------------------
+    REAL (Ber/Real.v models ber.encode_real / decode_real on exact dyadic
+    reals; tied to /repo by harness/real_model.py on every binary exponent):
+    for EVERY finite non-zero double the DER contents are X.690 11.3 canonical -
+    base 2, scaling 0, odd mantissa without a leading zero octet, exponent in the
+    fewest octets - and two doubles with the same contents are the same double
+    (up to the sign of zero: open finding real-minus-zero).  The arithmetic
+    before repair 7cb3c45 is refuted by 255.0. *)
+From Asn1V Require Ber.Real Ber.RealProofs.
+
+Theorem C03_der_real_canonical : ltac:(let T := type of Asn1V.Ber.RealProofs.der_real_canonical in exact T).
+Proof. exact Asn1V.Ber.RealProofs.der_real_canonical. Qed.
+Print Assumptions C03_der_real_canonical.
+
+Theorem C03_real_encode_injective : ltac:(let T := type of Asn1V.Ber.RealProofs.real_encode_injective in exact T).
+Proof. exact Asn1V.Ber.RealProofs.real_encode_injective. Qed.
+Print Assumptions C03_real_encode_injective.
+
+Example C03_der_real_canonical_pre_repair_refuted : ltac:(let T := type of Asn1V.Ber.RealProofs.der_real_canonical_pre_repair_refuted in exact T).
+Proof. exact Asn1V.Ber.RealProofs.der_real_canonical_pre_repair_refuted. Qed.
+Print Assumptions C03_der_real_canonical_pre_repair_refuted.
+
+(** Tie to the SOURCE TEXT (coq/gen/PyBer.v regenerated from ber.py on every run):
+    the regenerated identifier / length / integer / subidentifier encoders ARE the
+    model functions, for all arguments. *)
+From Asn1V Require Py.PyBerTie.
+
+Theorem C03_src_encode_length_definite : ltac:(let T := type of Asn1V.Py.PyBerTie.py_encode_length_definite_eq in exact T).
+Proof. exact Asn1V.Py.PyBerTie.py_encode_length_definite_eq. Qed.
+Print Assumptions C03_src_encode_length_definite.
+
+Theorem C03_src_encode_signed_integer : ltac:(let T := type of Asn1V.Py.PyBerTie.py_encode_signed_integer_eq in exact T).
+Proof. exact Asn1V.Py.PyBerTie.py_encode_signed_integer_eq. Qed.
+Print Assumptions C03_src_encode_signed_integer.
+
+Theorem C03_src_encode_tag : ltac:(let T := type of Asn1V.Py.PyBerTie.py_encode_tag_eq in exact T).
+Proof. exact Asn1V.Py.PyBerTie.py_encode_tag_eq. Qed.
+Print Assumptions C03_src_encode_tag.
+
+Theorem C03_src_encode_subidentifier : ltac:(let T := type of Asn1V.Py.PyBerTie.py_encode_object_identifier_subidentifier_eq in exact T).
+Proof. exact Asn1V.Py.PyBerTie.py_encode_object_identifier_subidentifier_eq. Qed.
+Print Assumptions C03_src_encode_subidentifier.
